@@ -399,13 +399,19 @@ def check_chains(rec):
 
 def _extra_policy(rec):
     """(c) parent forbids extras: a child that allows extras / adds a field must be refused (else witness)."""
-    for how in ("allow", "ignore", "newfield"):
+    for how in ("allow", "ignore", "newfield", "newfield-unannotated", "newfield-private-looking"):
         P = sl.make_class(f"PF{next(_counter)}", sl.MetadataSchema, {"f": ["Optional", "Int"]}, extra="forbid")
         rec.case(("extra", how), nontrivial=True)
         try:
             if how == "newfield":
                 C = sl.make_class(f"CF{next(_counter)}", P, {"g": ["Optional", "Int"]}, extra="forbid")
                 raw = {"g": 1}
+            elif how == "newfield-unannotated":  # field inferred from a bare default value
+                C = sl.make_class(f"CF{next(_counter)}", P, {}, extra="forbid", plain={"note": "n/a"})
+                raw = {"note": "x"}
+            elif how == "newfield-private-looking":  # annotated name the schema code may treat as non-public, but a real pydantic field
+                C = sl.make_class(f"CF{next(_counter)}", P, {"g2": ["Optional", "Int"]}, extra="forbid", plain={"h": 0})
+                raw = {"h": 3}
             else:
                 C = sl.make_class(f"CF{next(_counter)}", P, {}, extra=how)
                 raw = {"zz": 1}
